@@ -208,3 +208,18 @@ package fasthttp
 //@     invariant[said-close-recorded] saidClose ==> h.connectionClose
 //@   loop 2:
 //@     invariant[said-close-kept] saidClose ==> h.connectionClose
+
+// MultipartFormBoundary (C08): scanning the parameters of a multipart/form-data Content-Type never indexes or slices
+// outside the value, whatever follows `boundary=` (a lone quote, an empty value, a missing '=').
+//@ func RequestHeader.MultipartFormBoundary results r
+//@   property C08
+//@   mode skeleton
+//@   safety C08
+//@   noterm
+//@   on call RequestHeader.ContentType -> ct:
+//@     nohavoc
+//@   end
+//@   loop 1:
+//@     invariant[position] 0 <= n && n < len(b)
+//@   loop 2:
+//@     invariant[position] 1 <= n && n <= len(b)
